@@ -251,7 +251,7 @@ def segments(t):
         import re
         pos = 0
         k = 0
-        for m in re.finditer(r"%(\d*)([dsif])", fmt):
+        for m in re.finditer(r"%[-\d.]*[dsifge]", fmt):
             if m.start() > pos:
                 out.append(("lit", fmt[pos:m.start()]))
             if k >= len(args):
